@@ -28,13 +28,18 @@ let n_list_of_toks (t : toks) : n list =
   let k = int t in
   list_of k (fun () -> n_of_int (int t))
 
+let last_before : parser0 option ref = ref None
+
 let run_chars (v : vt) (cs : n list) : (vt * func option) res * int =
   (* feed all but the last char expecting no function; returns the function of the last one.
-     Also returns how many of the earlier chars emitted a function (should be 0). *)
+     Also returns how many of the earlier chars emitted a function (should be 0).
+     [last_before] receives the parser state right before the last character. *)
   let early = ref 0 in
+  last_before := None;
   let rec go v = function
     | [] -> Model.Ok (v, None)
     | [ c ] -> (
+        last_before := Some v.vparser;
         match feedM v.vparser c with
         | Panic s -> Panic s
         | Model.Ok (p, f) -> (
@@ -58,37 +63,6 @@ let run_chars (v : vt) (cs : n list) : (vt * func option) res * int =
   in
   let r = go v cs in
   (r, !early)
-
-
-(* ---- exhaustive parser sweep (SW / RUN records) ---- *)
-let breakpoints : int list =
-  let pts = ref [ int_of_n hi_threshold ] in
-  List.iter
-    (fun (pats, _) ->
-      List.iter (fun ((_, lo), hi) -> pts := int_of_n lo :: (int_of_n hi + 1) :: !pts) pats)
-    feed_arms;
-  List.sort_uniq compare !pts
-
-let sweep_parser : parser0 option ref = ref None
-let sweep_state = ref 0
-let sweep_cells = ref 0
-let sweep_points = ref 0
-let sweep_runs = ref 0
-
-let feed_all (p : parser0) (cs : n list) : parser0 option =
-  List.fold_left
-    (fun acc c -> match acc with None -> None | Some p -> (match feedM p c with Model.Ok (p', _) -> Some p' | Panic _ -> None))
-    (Some p) cs
-
-let model_sig (p : parser0) (c : int) : str =
-  match feedM p (n_of_int c) with
-  | Panic s -> "PANIC " ^ string_of_int (int_of_nat s)
-  | Model.Ok (p', f) ->
-      let st = string_of_int (int_of_pstate p'.pst) in
-      (match f with
-       | None -> st ^ " -"
-       | Some (Print x) when int_of_n x = c -> st ^ " Print self"
-       | Some f -> st ^ " " ^ str_of_func f)
 
 let () =
   let file = Sys.argv.(1) in
@@ -274,6 +248,15 @@ let () =
                      incr nontrivial
                    end;
                    (* oracles on the implementation triple *)
+                   (* C03: the function emitted by the last character is the one the hand-written tables
+                      (Williams diagram + function table) give for the parser state before it *)
+                   (match (!last_before, List.rev cs) with
+                    | Some pb, c :: _ ->
+                        obump "C03.dispatch_table";
+                        let s_spec = match spec_emit pb c with Some f -> str_of_func f | None -> "-" in
+                        if s_spec <> fn_impl then
+                          Printf.printf "ORA prop=C03 case=%d step=%d fn=%s what=dispatch_differs_from_function_table spec=[%s] impl=[%s]\n" !case_id !step kind s_spec fn_impl
+                    | _ -> ());
                    (* C03: dispatch is memoryless - a fresh parser fed the same characters from ground state
                       must emit the same function as the implementation did from its history-laden state *)
                    (if v.vparser.pst = Ground then begin
